@@ -96,6 +96,18 @@ def readInst (s : String) : Option Inst :=
     pure ⟨op, rt, rid, ops⟩
   | _ => none
 
+/-- `binary::parse_bytes` / `binary::parse_words`: the same parse through the other two entry points (`parse_words` views the
+words as their little-endian bytes) -/
+def respondParseEntry (rest : List String) (wordsOnly : Bool) : Option String :=
+  match rest.filter (· != "") with
+  | [] => some "bad-request"
+  | hx :: script =>
+    match unhex hx, parseScript script with
+    | some bytes, some sc =>
+      if wordsOnly && bytes.length % 4 != 0 then some "bad-request"
+      else some (showRun (parse theTables (scriptFn sc) bytes))
+    | _, _ => some "bad-request"
+
 def respondParse (ws : List String) : Option String :=
   match ws with
   | "parse" :: rest =>
@@ -105,6 +117,8 @@ def respondParse (ws : List String) : Option String :=
       match unhex hx, parseScript script with
       | some bytes, some sc => some (showRun (parse theTables (scriptFn sc) bytes))
       | _, _ => some "bad-request"
+  | "parseb" :: rest => respondParseEntry rest false
+  | "parsew" :: rest => respondParseEntry rest true
   | ["asm", i] =>
     match readInst i with
     | some inst => some ("ok " ++ ",".intercalate ((assembleInst inst).map toString))
